@@ -403,29 +403,32 @@ impl<'a> TimeZoneRef<'a> {
 
     /// Convert Unix time to Unix leap time, from the list of leap seconds in a time zone
     pub(crate) const fn unix_time_to_unix_leap_time(&self, unix_time: i64) -> Result<i64, TzError> {
-        let mut unix_leap_time = unix_time;
+        let mut correction = 0;
 
         let mut i = 0;
         while i < self.leap_seconds.len() {
             let leap_second = &self.leap_seconds[i];
 
             // A negative leap second removes a second, so it only applies strictly after its Unix leap time
-            let previous_correction = if i > 0 { self.leap_seconds[i - 1].correction } else { 0 };
-            let is_negative = leap_second.correction < previous_correction;
+            let is_negative = leap_second.correction < correction;
 
-            if unix_leap_time < leap_second.unix_leap_time || (is_negative && unix_leap_time == leap_second.unix_leap_time) {
+            // An intermediate correction may be larger than the final one, so it must not be checked for overflow
+            let unix_leap_time = unix_time as i128 + correction as i128;
+            let leap_second_unix_leap_time = leap_second.unix_leap_time as i128;
+
+            if unix_leap_time < leap_second_unix_leap_time || (is_negative && unix_leap_time == leap_second_unix_leap_time) {
                 break;
             }
 
-            unix_leap_time = match unix_time.checked_add(leap_second.correction as i64) {
-                Some(unix_leap_time) => unix_leap_time,
-                None => return Err(TzError::OutOfRange),
-            };
+            correction = leap_second.correction;
 
             i += 1;
         }
 
-        Ok(unix_leap_time)
+        match unix_time.checked_add(correction as i64) {
+            Some(unix_leap_time) => Ok(unix_leap_time),
+            None => Err(TzError::OutOfRange),
+        }
     }
 
     /// Convert Unix leap time to Unix time, from the list of leap seconds in a time zone
